@@ -202,6 +202,11 @@ class Index:
         for m in self.modules.values():
             for c in self._all_classes(m):
                 self._resolve_bases(c)
+        # _resolve_bases() -> resolve() may have asked for the MRO of a class whose bases were not filled in
+        # yet (and memoised a truncated one, e.g. sqltypes.String): drop every memo now that all bases are known
+        for m in self.modules.values():
+            for c in self._all_classes(m):
+                c._mro = None
         for m in self.modules.values():
             for c in self._all_classes(m):
                 for b in c.bases:
